@@ -211,7 +211,7 @@ def read (cfg : Cfg) : Ty → Ctx → Bytes → Nat → Except Err (Val × Nat)
       let buf := sread data pos sz
       match readMembers cfg fs [] buf with
       | .error e => .error e
-      | .ok vs => .ok (.union buf vs, pos + buf.length)
+      | .ok vs => .ok (.union buf vs, pos + sz)   -- the union ends where its size says, also after a short read (`stream.seek(start + cls.size)`)
 termination_by t _ _ _ => (t.msize, 0)
 decreasing_by
   all_goals simp_wf
